@@ -97,7 +97,7 @@ fn mk_tag(spec: &str) -> Option<Tag> {
     }
 }
 
-fn h<T: Hash>(t: &T) -> u64 {
+fn h<T: Hash + ?Sized>(t: &T) -> u64 {
     let mut s = DefaultHasher::new();
     t.hash(&mut s);
     s.finish()
@@ -316,8 +316,15 @@ pub fn exec(op: &[&str]) -> String {
                 Ok(sb) => (a == sb) as u8,
                 Err(_) => eq as u8,
             };
+            // the operators and hashers an implementation may override separately: `!=` (also through a
+            // tuple, which forwards to the elements' `ne`), hashing as part of a slice / array / Vec
+            #[allow(clippy::nonminimal_bool)]
+            let ne_ok = (a != b) == !eq && ((a.clone(), 1u8) != (b.clone(), 1u8)) == !eq && !(a != a.clone());
+            let hs = h(&[a.clone()][..]) == h(&[b.clone()][..])
+                && h(&vec![a.clone(), b.clone()]) == h(&vec![b.clone(), a.clone()])
+                && h(&[a.clone(), a.clone()]) == h(&[b.clone(), b.clone()]);
             format!(
-                "na:{},nb:{},eq:{},cmp:{},pc:{},hash:{},map:{},es:{}",
+                "na:{},nb:{},eq:{},cmp:{},pc:{},hash:{},map:{},es:{},ne:{},hs:{}",
                 hex(&tag_name(&a)),
                 hex(&nb),
                 eq as u8,
@@ -325,7 +332,9 @@ pub fn exec(op: &[&str]) -> String {
                 pc as u8,
                 hash as u8,
                 map as u8,
-                es
+                es,
+                ne_ok as u8,
+                hs as u8
             )
         }
         "tag.rt" => {
